@@ -103,6 +103,21 @@ def r16_1(ctx, b, m):
         else:
             ctx.fail(R, k, call_line(b, bi), 'pushes %s: neither the incoming op nor a LineTo' % fmt(b, v))
     ctx.floor(R, 'pushes into the result', n, 4)
+    stop = an.cfg.ipdom(m.bb)
+    for v in ('MoveTo', 'LineTo', 'Close'):
+        if v not in m.arms:
+            ctx.fail(R, key + '|arm ' + v, b.loc(), 'no %s arm' % v)
+            continue
+        region = arm_region(an.cfg, m.bb, m.arms[v])
+        fw = set()
+        for bi, d, ct in calls_in(ctx, b, region):
+            if d and d.endswith('Vec::<T, A>::push'):
+                root, names = field_path(strip_all(ct[2][0]))
+                if (root == ('mem', res) or root == ('param', 0)) and names[:1] == ['ops']:
+                    fw.add(bi)
+        okf, pth = an.cfg.must_pass_through(m.arms[v], fw, exits=[stop] if stop is not None else None)
+        ctx.check(okf and bool(fw), R, key + '|%s forwarded on every path' % v, b.loc(), 'every path through the %s arm pushes the op' % v,
+                  'the %s arm can be left without pushing the op into the flattened path (blocks %s): ops are dropped' % (v, pth))
 
 
 def r16_2(ctx, b, m):
@@ -245,7 +260,25 @@ def r16_3(ctx, b, m):
                     t = an.def_term(d)
                     if t[0] == 'agg' and t[3] == 'Some' and payload(t[4][0][1], v, last):
                         okc = True
+        okc_blocks = set()
+        for cur in curs:
+            for d in an.defs_of.get(cur, []):
+                if d.bb in region:
+                    t = an.def_term(d)
+                    if t[0] == 'agg' and t[3] == 'Some' and payload(t[4][0][1], v, last):
+                        okc_blocks.add(d.bb)
         ctx.check(okc, R, key + '|%s cursor:=end' % v, b.loc(sp), 'cursor := Some(end point)', 'after a %s the cursor is not set to its end point (payload %d)' % (v, last))
+        # ... on every path through the arm: no early-out skips the curve or leaves the cursor behind
+        stop = an.cfg.ipdom(m.bb)
+        exits = [stop] if stop is not None else None
+        if fl:
+            okf, pth = an.cfg.must_pass_through(m.arms[v], set(x[0] for x in fl), exits=exits)
+            ctx.check(okf, R, key + '|%s flattened on every path' % v, b.loc(sp), 'every path through the %s arm flattens the curve' % v,
+                      'the %s arm can be left without flattening the curve (blocks %s): for some inputs (e.g. a curve whose end point equals its start, which is a loop, not an empty segment) the curve is dropped from the flattened path' % (v, pth))
+        if okc_blocks:
+            okp2, pth = an.cfg.must_pass_through(m.arms[v], okc_blocks, exits=exits)
+            ctx.check(okp2, R, key + '|%s cursor:=end on every path' % v, b.loc(sp), 'every path through the %s arm sets the cursor to the end point' % v,
+                      'the %s arm can be left without setting the cursor to the curve\'s end point (blocks %s)' % (v, pth))
 
 
 def r16_5(ctx, b, m):
